@@ -210,4 +210,8 @@ def rows() -> 'list[Registry]':
 \treturn []
 '''
 
-ALL = {'shape_forward': FORWARD, 'shape_comments': COMMENTS, 'shape_literals': LITERALS, 'shape_vars': VARS, 'shape_uses': USES, 'shape_openblock': OPENBLOCK, 'shape_generic': GENERIC, 'shape_pairs': PAIRS, 'shape_flow': FLOW, 'shape_doconly': DOCONLY, 'shape_docfirst': DOCFIRST}
+# text that is not in Unicode normal form C (a combining accent, a combining voiced mark, the angstrom and ohm signs): stored and
+# restored as it is
+UNICODE = ("# caf\u0065\u0301 \u304b\u3099\n\nlabel: str = 'caf\u0065\u0301'\nsign: str = '\u212b \u2126'\n\ndef uni() -> str:\n\t'''\u304b\u3099'''\n\treturn label + sign\n")
+
+ALL = {'shape_unicode': UNICODE, 'shape_forward': FORWARD, 'shape_comments': COMMENTS, 'shape_literals': LITERALS, 'shape_vars': VARS, 'shape_uses': USES, 'shape_openblock': OPENBLOCK, 'shape_generic': GENERIC, 'shape_pairs': PAIRS, 'shape_flow': FLOW, 'shape_doconly': DOCONLY, 'shape_docfirst': DOCFIRST}
